@@ -445,19 +445,24 @@ Definition scaled_int_of_bits (k : Z) (b : N) : option Z :=
       end.
 Definition int_of_bits (b : N) : option Z := scaled_int_of_bits 0 b.
 
-(* is the double [d] (given by its bits) the square root of the integer n to within one unit in
-   the last place?  d = D * 2^-52 exactly (for d >= 2^-52... here d is 0 or >= 1), one ulp of d is
-   T * 2^-52 with T = 2^(exponent of d); the test is (D-T)^2 <= n * 2^104 <= (D+T)^2 in integers *)
-Definition sqrt_within_ulp (n : Z) (dbits : N) : bool :=
+(* is the double [d] (given by its bits) the square root of the integer n to within [tol] units in
+   the last place?  d = D * 2^-52 exactly (d is 0 or >= 1 here), one ulp of d is T * 2^-52 with
+   T = 2^(exponent of d); the test is (D - tol*T)^2 <= n * 2^104 <= (D + tol*T)^2, in integers.
+   The lattice run uses tol = 2: since the fix F40 Envelope.Distance is math.Hypot(dx, dy), which is
+   accurate to about one ulp but not correctly rounded (Hypot(1,6) is one ulp below the correctly
+   rounded sqrt 37), and the double nearest to the exact root is itself up to half an ulp away from
+   it; the property asks for agreement with the interval definition to within rounding. *)
+Definition sqrt_within_ulps (tol : Z) (n : Z) (dbits : N) : bool :=
   match scaled_int_of_bits 52 dbits with
   | None => false
   | Some D =>
       if n =? 0 then D =? 0
       else
         let e := Z.of_N (N.land dbits 9223372036854775807) / 4503599627370496 in
-        let T := 2 ^ (Z.max 0 (e - 1023)) in
+        let T := tol * 2 ^ (Z.max 0 (e - 1023)) in
         (0 <? D) && ((D - T) * (D - T) <=? n * 2 ^ 104) && (n * 2 ^ 104 <=? (D + T) * (D + T))
   end.
+Definition sqrt_within_ulp (n : Z) (dbits : N) : bool := sqrt_within_ulps 1 n dbits.
 
 (* carrier change of a whole geometry (bits -> keys, bits -> integers) *)
 Section MapGeom.
